@@ -228,11 +228,24 @@ class MediaFile(ModelMixin["MediaFile"], Base):
                 details=f'No such file or directory: {src_name}')
             session.add(err)
             return False
-        with self.blob.open_file(abs_path, start=0, buffer_size=16384) as src:
-            atom = mp4.Wrapper(
-                atom_type='wrap', position=0, size=self.blob.size,
-                parent=None, children=mp4.Mp4Atom.load(src))
-        rep = Representation.load(filename=self.name, atoms=atom.children)
+        try:
+            with self.blob.open_file(abs_path, start=0, buffer_size=16384) as src:
+                atom = mp4.Wrapper(
+                    atom_type='wrap', position=0, size=self.blob.size,
+                    parent=None, children=mp4.Mp4Atom.load(src))
+            rep = Representation.load(filename=self.name, atoms=atom.children)
+        except Exception as parse_err:
+            # a truncated or corrupt file can make the parser fail in many
+            # ways (struct.error, IndexError, AttributeError, ValueError ..)
+            logging.warning(
+                'Failed to parse %s: %s %s', src_name,
+                type(parse_err).__name__, parse_err)
+            err = MediaFileError(
+                media_file=self,
+                reason=ErrorReason.NO_FRAGMENTS,
+                details=f'Failed to parse MP4 file: {type(parse_err).__name__} {parse_err}')
+            session.add(err)
+            return False
         if not rep.segments:
             err = MediaFileError(
                 media_file=self,
@@ -252,6 +265,13 @@ class MediaFile(ModelMixin["MediaFile"], Base):
                 media_file=self,
                 reason=ErrorReason.FAILED_TO_DETECT_BITRATE,
                 details='Insufficient data to calculate bitrate')
+            session.add(err)
+            return False
+        if rep.codecs is None:
+            err = MediaFileError(
+                media_file=self,
+                reason=ErrorReason.NO_FRAGMENTS,
+                details='Failed to detect the codec of the media')
             session.add(err)
             return False
         self.representation = rep
